@@ -600,6 +600,15 @@ TRANSFORMS["xor"] = (lambda rng, N: {"k": _k(rng)},
 TRANSFORMS["or"] = (lambda rng, N: {"k": _k(rng)},
                     lambda F, p: cnfgen.OrSubstitution(F, p["k"]),
                     lambda N, p: N * p["k"])
+def _and_substitution(F, k):
+    # (the function exists and is documented, but is not exported)
+    from cnfgen.transformations.substitutions import AndSubstitution
+    return AndSubstitution(F, k)
+
+
+TRANSFORMS["and"] = (lambda rng, N: {"k": _k(rng)},
+                     lambda F, p: _and_substitution(F, p["k"]),
+                     lambda N, p: N * p["k"])
 TRANSFORMS["maj"] = (lambda rng, N: {"k": _k(rng)},
                      lambda F, p: cnfgen.MajoritySubstitution(F, p["k"]),
                      lambda N, p: N * p["k"])
